@@ -425,13 +425,15 @@ func coseTables(c *Check) {
 			if pg == nil {
 				continue
 			}
-			okNodes := map[*Node]bool{}
+			okNodes := map[int64]bool{} // the distinct hashes returned (one return per hash, or one return fed by a table)
 			for _, s := range pg.Returns() {
 				if !retNilErr(s, 1) {
 					continue
 				}
-				okNodes[s.Node] = true
 				h, ok := retConst(s, 0)
+				if ok {
+					okNodes[int64(h)] = true
+				}
 				var lps []LP
 				for k, a := range byConst {
 					if hashOfAlg[a] == h {
